@@ -35,9 +35,9 @@ Q = 60000
 
 def instances(tier, seed):
     out = []
-    cfgs = [('PIT', {'fam': 'T1', 'K': 2, 'C': 2}, ['none', 'discrete_cost']), ('PIT', {'fam': 'L1'}, ['none']),
-            ('MPS', {'fam': 'ML', 'bn': False, 'wtype': 'layer', 'w': [2, 8], 'a': [4, 8]}, ['none', 'temperature', 'temperature=1/2', 'temperature=3', 'hard', 'gumbel']),
-            ('SuperNet', {'n': 2, 'kind': 'conv'}, ['none', 'temperature', 'hard']),
+    cfgs = [('PIT', {'fam': 'T1', 'K': 2, 'C': 2}, ['none', 'discrete_cost', 'train_net_only']), ('PIT', {'fam': 'L1'}, ['none']),
+            ('MPS', {'fam': 'ML', 'bn': False, 'wtype': 'layer', 'w': [2, 8], 'a': [4, 8]}, ['none', 'temperature', 'temperature=1/2', 'temperature=3', 'hard', 'gumbel', 'train_net_only']),
+            ('SuperNet', {'n': 2, 'kind': 'conv'}, ['none', 'temperature', 'hard', 'train_net_only']),
             ('SuperNet', {'n': 2, 'kind': 'conv', 'gumbel': True}, ['train_forward']),
             ('MPS', {'fam': 'ML', 'bn': False, 'wtype': 'layer', 'w': [2, 8], 'a': [4, 8], 'mps': {'disable_sampling': True}}, ['none'])]
     if tier == 'thorough':
@@ -82,6 +82,10 @@ def apply_prefix(method, w, pre, T, xin=None):
             w.update_softmax_options(gumbel=True)
         elif op == 'discrete_cost':
             w.discrete_cost = True
+        elif op in ('train_net_only', 'train_nas_only', 'train_net_and_nas'):
+            # the phase of the search in which the checkpoint is taken (fine-tuning / warm-up): which group is trainable is not part of the
+            # state_dict, and nothing observable may depend on it
+            getattr(w, op)()
         elif op == 'train_forward':
             # a training-mode forward pass after the last option update, then back to eval for the observation
             w.train()
@@ -142,9 +146,14 @@ def symbolify(model, prefix, fresh, ex=None, sym_weights=True, conc_theta=False)
                                     for j in range(i + 1, len(col)):
                                         ex.assume(z3.Or(col[i] - col[j] >= Fraction(1, 20), col[j] - col[i] >= Fraction(1, 20)))
                     syms[f'{mn}.{k}'] = s
+                    if d is mod._parameters and v.requires_grad:
+                        s.requires_grad_(True)          # which group is trainable is visible to the code under analysis
                     d[k] = s
                 else:
-                    d[k] = SymTensor.from_array(st.to_arr(v), v.dtype)
+                    c = SymTensor.from_array(st.to_arr(v), v.dtype)
+                    if d is mod._parameters and v.requires_grad:
+                        c.requires_grad_(True)
+                    d[k] = c
     return syms
 
 
